@@ -17,6 +17,9 @@ theorem check_null (w : Nat) (t : Ty) (p : String) : check w t .null p = none :=
 @[simp] theorem check_bool (w : Nat) (b : Bool) (p : String) : check w .bool (.bool b) p = none := by
   simp [check]
 
+@[simp] theorem check_boolTrue (w : Nat) (p : String) : check w .boolTrue (.bool true) p = none := by
+  simp [check]
+
 theorem check_u32 (w n : Nat) (p : String) (h : n ≤ U32MAX) : check w .u32 (.nat n) p = none := by
   simp [check, isU32, JNum.ofNat, h]
 
@@ -111,7 +114,7 @@ structure FrameTyped (f : FrameM) : Prop where
 def RegsTyped (c : RegCtx) : Prop := ∀ r ∈ c.gpr, r.2 ≤ U64MAX
 
 theorem check_trust (w : Nat) (t : Trust) (p : String) : check w trustTy (.str t.name) p = none := by
-  cases t <;> simp [check, trustTy, Trust.name]
+  cases t <;> simp [check, trustTy, trustDocumented, trustUndocumented, Trust.name]
 
 theorem check_inlines (w : Nat) (l : List InlineM) (p : String)
     (h : ∀ i ∈ l, ∀ n, i.line = some n → n ≤ U32MAX) :
@@ -329,123 +332,108 @@ theorem check_optHex (pw : PW) (o : Option Nat) (p : String) (h : ∀ n, o = som
 
 theorem check_moduleJson (pw : PW) (ci : List (String × String)) (ss : List (String × Stats))
     (m : ModuleM) (j : Json) (h : moduleJson pw ci ss m = .ok j) (p : String) :
-    check pw.digits (.obj [
-    ("base_addr", .hexA), ("end_addr", .hexA), ("debug_file", .str), ("debug_id", .str),
-    ("filename", .str), ("code_id", .str), ("version", .str), ("cert_subject", .str),
-    ("missing_symbols", .bool), ("loaded_symbols", .bool), ("corrupt_symbols", .bool),
-    ("symbol_url", .str)]) j p = none := by
+    check pw.digits (.obj moduleFields) j p = none := by
   by_cases hgt : m.base + m.size > U64MAX
   · simp only [moduleJson, obind, checkedAdd, hgt, if_true] at h
     cases h
   · simp only [moduleJson, obind, checkedAdd, hgt, if_false] at h
     cases h
     rw [checkFields_mkObj]
-    simp [checkFields, getKV_insertKV, getKV, check_hexA pw m.base _ (by omega),
+    simp [moduleFields, checkFields, getKV_insertKV, getKV, check_hexA pw m.base _ (by omega),
       check_hexA pw (m.base + m.size) _ (by omega)]
 
 theorem check_unloadedJson (pw : PW) (ci : List (String × String))
     (m : UnloadedM) (j : Json) (h : unloadedJson pw ci m = .ok j) (p : String) :
-    check pw.digits (.obj [
-    ("base_addr", .hexA), ("end_addr", .hexA), ("code_id", .str), ("filename", .str),
-    ("cert_subject", .str)]) j p = none := by
+    check pw.digits (.obj unloadedFields) j p = none := by
   by_cases hgt : m.base + m.size > U64MAX
   · simp only [unloadedJson, obind, checkedAdd, hgt, if_true] at h
     cases h
   · simp only [unloadedJson, obind, checkedAdd, hgt, if_false] at h
     cases h
     rw [checkFields_mkObj]
-    simp [checkFields, getKV_insertKV, getKV, check_hexA pw m.base _ (by omega),
+    simp [unloadedFields, checkFields, getKV_insertKV, getKV, check_hexA pw m.base _ (by omega),
       check_hexA pw (m.base + m.size) _ (by omega)]
 
 theorem check_handleJson (w : Nat) (h : HandleM) (hh : h.handle ≤ U64MAX) (p : String) :
-    check w (.obj [("handle", .u64), ("type_name", .str), ("object_name", .str)]) (handleJson h) p = none := by
-  simp [handleJson, checkFields_mkObj, checkFields, getKV_insertKV, getKV, check_u64 _ _ _ hh]
+    check w (.obj handleFields) (handleJson h) p = none := by
+  simp [handleFields, handleJson, checkFields_mkObj, checkFields, getKV_insertKV, getKV, check_u64 _ _ _ hh]
 
 theorem check_systemInfo (w : Nat) (s : SysInfo) (hos : ∀ v, s.os ≠ .unknown v)
     (hc : s.cpuCount ≤ U32MAX) (hm : ∀ n, s.microcode = some n → n ≤ U64MAX) (p : String) :
-    check w (.obj [
-    ("os", .enum ["Windows NT", "Mac OS X", "iOS", "Linux", "Solaris", "Android", "PS3", "NaCl"] true),
-    ("os_ver", .str),
-    ("cpu_arch", .enum ["x86", "amd64", "ppc", "ppc64", "sparc", "arm", "arm64", "unknown",
-                        "mips", "mips64"] false),
-    ("cpu_info", .str),
-    ("cpu_count", .u32),
-    ("cpu_microcode_version", .hexN)]) (systemInfoJson s) p = none := by
-  have hosj : ∀ q, check w (.enum ["Windows NT", "Mac OS X", "iOS", "Linux", "Solaris", "Android", "PS3",
-      "NaCl"] true) (.str s.os.longName) q = none := by
+    check w (.obj systemInfoFields) (systemInfoJson s) p = none := by
+  have hosj : ∀ q, check w osTy (.str s.os.longName) q = none := by
     intro q
     cases ho : s.os with
     | unknown v => exact absurd ho (hos v)
-    | _ => simp [check, Os.longName]
-  have hcpu : ∀ q, check w (.enum ["x86", "amd64", "ppc", "ppc64", "sparc", "arm", "arm64", "unknown",
-      "mips", "mips64"] false) (.str s.cpu.name) q = none := by
-    intro q; cases s.cpu <;> simp [check, Cpu.name]
+    | _ => simp [check, osTy, osDocumented, Os.longName]
+  have hcpu : ∀ q, check w cpuTy (.str s.cpu.name) q = none := by
+    intro q; cases s.cpu <;> simp [check, cpuTy, cpuDocumented, cpuUndocumented, Cpu.name]
   have hmc : ∀ q, check w .hexN (optJ (fun n : Nat => Json.str (hexPad 0 n)) s.microcode) q = none := by
     intro q
     cases hmm : s.microcode with
     | none => exact check_null _ _ _
     | some n => exact check_hexN w 0 n q (hm n hmm)
-  simp [systemInfoJson, checkFields_mkObj, checkFields, getKV_insertKV, getKV, hosj, hcpu, hmc,
+  simp [systemInfoFields, systemInfoJson, checkFields_mkObj, checkFields, getKV_insertKV, getKV, hosj, hcpu, hmc,
     check_u32 _ _ _ hc]
 
 theorem check_lsb (w : Nat) (l : Lsb) (p : String) :
-    check w (.obj [("id", .str), ("release", .str), ("codename", .str), ("description", .str)])
+    check w (.obj lsbFields)
       (mkObj [("id", .str l.id), ("release", .str l.release), ("codename", .str l.codename),
               ("description", .str l.description)]) p = none := by
-  simp [checkFields_mkObj, checkFields, getKV_insertKV, getKV]
+  simp [lsbFields, checkFields_mkObj, checkFields, getKV_insertKV, getKV]
 
 theorem check_macRecord (pw : PW) (r : MacRecord) (p : String)
     (h1 : ∀ n, r.thread = some n → n ≤ U64MAX) (h2 : ∀ n, r.dialogMode = some n → n ≤ U64MAX)
     (h3 : ∀ n, r.abortCause = some n → n ≤ U64MAX) :
-    check pw.digits (.obj [("thread", .hexA), ("dialog_mode", .hexA), ("abort_cause", .hexA),
-        ("module", .str), ("message", .str), ("signature_string", .str), ("backtrace", .str),
-        ("message2", .str)]) (macRecordJson pw r) p = none := by
-  simp [macRecordJson, checkFields_mkObj, checkFields, getKV_insertKV, getKV, check_optHex pw _ _ h1,
+    check pw.digits (.obj macRecordFields) (macRecordJson pw r) p = none := by
+  simp [macRecordFields, macRecordJson, checkFields_mkObj, checkFields, getKV_insertKV, getKV, check_optHex pw _ _ h1,
     check_optHex pw _ _ h2, check_optHex pw _ _ h3]
 
 theorem check_memAccess (pw : PW) (a : MemAccess) (p : String) (ha : a.address ≤ U64MAX)
     (hs : ∀ n, a.size = some n → n ≤ U32MAX) :
-    check pw.digits (.obj [("address", .hexA), ("size", .u32),
-        ("is_likely_guard_page", .bool), ("access_type", .enum ["read", "write", "readwrite"] false)])
-      (memAccessJson pw a) p = none := by
-  have hty : a.ty ≠ .underivable → ∀ q, check pw.digits (.enum ["read", "write", "readwrite"] false)
-      (.str a.ty.lower) q = none := by
+    check pw.digits (.obj memAccessFields) (memAccessJson pw a) p = none := by
+  have hty : a.ty ≠ .underivable → ∀ q, check pw.digits accessTy (.str a.ty.lower) q = none := by
     intro hne q
     cases hh : a.ty with
     | underivable => exact absurd hh hne
-    | _ => simp [check, AccessType.lower]
+    | _ => simp [check, accessTy, accessTypeDocumented, AccessType.lower]
   unfold memAccessJson
   by_cases hg : a.guard = true <;> by_cases ht : a.ty = .underivable <;>
-    simp [hg, ht, checkFields_mkObj, checkFields, getKV_insertKV, getKV, check_hexA pw _ _ ha,
+    simp [memAccessFields, hg, ht, checkFields_mkObj, checkFields, getKV_insertKV, getKV, check_hexA pw _ _ ha,
       check_optNat_u32 _ _ _ hs, hty]
 
 theorem check_ipUpdate (pw : PW) (u : IpUpdate) (p : String)
     (h : ∀ a g, u = .update a g → a ≤ U64MAX) :
-    check pw.digits (.obj [("address", .hexA), ("is_likely_guard_page", .bool)]) (ipUpdateJson pw u) p = none := by
+    check pw.digits (.obj ipUpdateFields) (ipUpdateJson pw u) p = none := by
   cases u with
   | noUpdate => exact check_null _ _ _
   | update a g =>
     cases g <;>
-      simp [ipUpdateJson, checkFields_mkObj, checkFields, getKV_insertKV, getKV, check_hexA pw _ _ (h a _ rfl)]
+      simp [ipUpdateFields, ipUpdateJson, checkFields_mkObj, checkFields, getKV_insertKV, getKV, check_hexA pw _ _ (h a _ rfl)]
 
 theorem check_bitFlip (pw : PW) (b : BitFlip) (p : String) (ha : b.address ≤ U64MAX) (hn : b.nearby ≤ U32MAX) :
-    check pw.digits (.obj [("address", .hexA),
-        ("details", .obj [("was_non_canonical", .bool), ("is_null", .bool), ("was_low", .bool),
-                          ("poison_registers", .bool), ("nearby_registers", .u32)]),
-        ("confidence", .f32), ("source_register", .str)]) (bitFlipJson pw b) p = none := by
+    check pw.digits (.obj bitFlipFields) (bitFlipJson pw b) p = none := by
   have hconf : ∀ q, check pw.digits .f32 (optJ Json.num b.confidence) q = none := by
     intro q; cases b.confidence <;> simp [optJ, check]
-  simp [bitFlipJson, checkFields_mkObj, checkFields, getKV_insertKV, getKV, check_hexA pw _ _ ha,
+  simp [bitFlipFields, bitFlipJson, checkFields_mkObj, checkFields, getKV_insertKV, getKV, check_hexA pw _ _ ha,
     check_u32 _ _ _ hn, hconf]
 
+theorem isHexString_hexAddr (pw : PW) (v : Nat) (hv : v ≤ U64MAX) :
+    isHexString pw.digits (hexAddr pw v) = true :=
+  isHexString_hexPad pw.digits pw.digits v hv (by omega)
+
+/-- `adjusted_address`: `kind` is one of the two documented strings and exactly the member that
+    goes with it is present, as a hex string of the platform width -/
 theorem check_adjusted (pw : PW) (a : Adjusted) (p : String)
     (h1 : ∀ v, a = .nonCanonical v → v ≤ U64MAX) (h2 : ∀ v, a = .nullOffset v → v ≤ U64MAX) :
-    check pw.digits (.obj [("kind", .str), ("address", .hexA), ("offset", .hexA)]) (adjustedJson pw a) p = none := by
+    check pw.digits .adjusted (adjustedJson pw a) p = none := by
   cases a with
   | nonCanonical v =>
-    simp [adjustedJson, checkFields_mkObj, checkFields, getKV_insertKV, getKV, check_hexA pw _ _ (h1 v rfl)]
+    simp [adjustedJson, mkObj, check, checkAdjusted, getKV_insertKV, getKV, isAbsent,
+      isHexString_hexAddr pw v (h1 v rfl)]
   | nullOffset v =>
-    simp [adjustedJson, checkFields_mkObj, checkFields, getKV_insertKV, getKV, check_hexA pw _ _ (h2 v rfl)]
+    simp [adjustedJson, mkObj, check, checkAdjusted, getKV_insertKV, getKV, isAbsent,
+      isHexString_hexAddr pw v (h2 v rfl)]
 
 theorem optJ_some {α : Type} (f : α → Json) (a : α) : optJ f (some a) = f a := rfl
 theorem optJ_none {α : Type} (f : α → Json) : optJ f none = .null := rfl
@@ -498,41 +486,27 @@ theorem check_crashingCopy (w : Nat) (tj c regs : Json) (i : Nat) (fs : List Jso
     · cases hc
   · cases hc
 
+theorem check_inconsistency (w : Nat) (i : Inconsistency) (p : String) :
+    check w inconsistencyTy (.str i.name) p = none := by
+  cases i <;> simp [check, inconsistencyTy, inconsistencyDocumented, Inconsistency.name]
+
 theorem check_crashInfo (pw : PW) (s : StateModel) (p : String)
     (he : ∀ e, s.exc = some e → ExcTyped e) (hreq : ∀ n, s.requestingThread = some n → n ≤ U32MAX) :
-    check pw.digits (.obj [
-    ("type", .str),
-    ("address", .hexA),
-    ("adjusted_address", .obj [("kind", .str), ("address", .hexA), ("offset", .hexA)]),
-    ("instruction", .str),
-    ("memory_accesses", .arr (.obj [("address", .hexA), ("size", .u32),
-        ("is_likely_guard_page", .bool), ("access_type", .enum ["read", "write", "readwrite"] false)])),
-    ("instruction_pointer_update", .obj [("address", .hexA), ("is_likely_guard_page", .bool)]),
-    ("possible_bit_flips", .arr (.obj [("address", .hexA),
-        ("details", .obj [("was_non_canonical", .bool), ("is_null", .bool), ("was_low", .bool),
-                          ("poison_registers", .bool), ("nearby_registers", .u32)]),
-        ("confidence", .f32), ("source_register", .str)])),
-    ("crash_inconsistencies", .arr (.enum ["int_div_by_zero_not_possible",
-        "priv_instruction_crash_without_priv_instruction", "non_canonical_address_falsely_reported",
-        "access_violation_when_access_allowed", "crashing_access_not_found_in_memory_accesses"] false)),
-    ("crashing_thread", .u32),
-    ("assertion", .str)]) (crashInfoJson pw s) p = none := by
+    check pw.digits (.obj crashInfoFields) (crashInfoJson pw s) p = none := by
   cases hexc : s.exc with
   | none =>
-    simp [crashInfoJson, hexc, optJ_none, checkFields_mkObj, checkFields, getKV_insertKV, getKV, check_null,
-      check_optNat_u32 _ _ _ hreq]
+    simp [crashInfoFields, crashInfoJson, hexc, optJ_none, checkFields_mkObj, checkFields, getKV_insertKV, getKV,
+      check_null, check_optNat_u32 _ _ _ hreq]
   | some e =>
     have et := he e hexc
-    have hadj : ∀ q, check pw.digits (.obj [("kind", .str), ("address", .hexA), ("offset", .hexA)])
-        (optJ (adjustedJson pw) e.adjusted) q = none := by
+    have hadj : ∀ q, check pw.digits .adjusted (optJ (adjustedJson pw) e.adjusted) q = none := by
       intro q
       cases ha : e.adjusted with
       | none => exact check_null _ _ _
       | some a =>
         exact check_adjusted pw a q (fun v hv => et.adjNon v (by rw [ha, hv]))
           (fun v hv => et.adjNull v (by rw [ha, hv]))
-    have hmem : ∀ q, check pw.digits (.arr (.obj [("address", .hexA), ("size", .u32),
-        ("is_likely_guard_page", .bool), ("access_type", .enum ["read", "write", "readwrite"] false)]))
+    have hmem : ∀ q, check pw.digits (.arr (.obj memAccessFields))
         (optJ (fun l : List MemAccess => .arr (l.map (memAccessJson pw))) e.memAccesses) q = none := by
       intro q
       cases hm : e.memAccesses with
@@ -542,16 +516,12 @@ theorem check_crashInfo (pw : PW) (s : StateModel) (p : String)
         intro x hx q'
         obtain ⟨a, ha, rfl⟩ := List.mem_map.mp hx
         exact check_memAccess pw a q' (et.mem l hm a ha).1 (et.mem l hm a ha).2
-    have hip : ∀ q, check pw.digits (.obj [("address", .hexA), ("is_likely_guard_page", .bool)])
-        (optJ (ipUpdateJson pw) e.ipUpdate) q = none := by
+    have hip : ∀ q, check pw.digits (.obj ipUpdateFields) (optJ (ipUpdateJson pw) e.ipUpdate) q = none := by
       intro q
       cases hu : e.ipUpdate with
       | none => exact check_null _ _ _
       | some u => exact check_ipUpdate pw u q (fun a g hag => et.ip a g (by rw [hu, hag]))
-    have hflips : ∀ q, check pw.digits (.arr (.obj [("address", .hexA),
-        ("details", .obj [("was_non_canonical", .bool), ("is_null", .bool), ("was_low", .bool),
-                          ("poison_registers", .bool), ("nearby_registers", .u32)]),
-        ("confidence", .f32), ("source_register", .str)]))
+    have hflips : ∀ q, check pw.digits (.arr (.obj bitFlipFields))
         (if e.bitFlips = [] then Json.null else .arr (e.bitFlips.map (bitFlipJson pw))) q = none := by
       intro q
       split
@@ -560,16 +530,14 @@ theorem check_crashInfo (pw : PW) (s : StateModel) (p : String)
         intro x hx q'
         obtain ⟨b, hb, rfl⟩ := List.mem_map.mp hx
         exact check_bitFlip pw b q' (et.flips b hb).1 (et.flips b hb).2
-    have hinc : ∀ q, check pw.digits (.arr (.enum ["int_div_by_zero_not_possible",
-        "priv_instruction_crash_without_priv_instruction", "non_canonical_address_falsely_reported",
-        "access_violation_when_access_allowed", "crashing_access_not_found_in_memory_accesses"] false))
+    have hinc : ∀ q, check pw.digits (.arr inconsistencyTy)
         (.arr (e.inconsistencies.map fun i => .str i.name)) q = none := by
       intro q
       apply check_arr
       intro x hx q'
       obtain ⟨i, _, rfl⟩ := List.mem_map.mp hx
-      cases i <;> simp [check, Inconsistency.name]
-    simp [crashInfoJson, hexc, optJ_some, checkFields_mkObj, checkFields, getKV_insertKV, getKV,
+      exact check_inconsistency _ i q'
+    simp [crashInfoFields, crashInfoJson, hexc, optJ_some, checkFields_mkObj, checkFields, getKV_insertKV, getKV,
       check_optNat_u32 _ _ _ hreq, check_hexA pw _ _ et.address, hadj, hmem, hip, hflips, hinc]
 
 end MdModel.Json
